@@ -296,6 +296,7 @@ func cmdCheck(args []string) int {
 		undecided = append(undecided, shortFunc(fn)+": "+what)
 		fmt.Printf("UNDECIDED property=%s function=%s obligation=%q\n", prop, shortFunc(fn), what)
 	}
+	var curAbstracted []string // unmodelled library calls of the unit being reported (arbitrary results)
 	isUndecidable := func(kind, name string) bool {
 		switch kind {
 		case "contract":
@@ -359,6 +360,9 @@ func cmdCheck(args []string) int {
 		var b strings.Builder
 		fmt.Fprintf(&b, "property: %s\nfailed obligation: %s\nkind: %s\nfunction: %s\nat: %s\nsolver status: %s\nquery: %s\npath: %s\n", prop, name, kind, fn, pos, status, file, strings.Join(trace, " "))
 		suffix := " no-failing-input-found"
+		if len(curAbstracted) > 0 {
+			fmt.Fprintf(&b, "\ncaveat: this function calls library functions the engine has no model of; their results were taken to be\narbitrary values (no effect on the caller's state). The refutation stands if the obligation depends on such a\nresult being a particular value that the library does not guarantee; it is spurious if the library function does\nguarantee it. Calls concerned:\n  %s\n", strings.Join(curAbstracted, "\n  "))
+		}
 		if status == "sat" {
 			fmt.Fprintf(&b, "\nThe solver found an assignment of the function's inputs / database rows under which the\nobligation is false (model below; symbols are access paths of the inputs, row.<table> are database rows).\n")
 			rr := tryReplay(prog, prop, fn, name, kind, model, *verif)
@@ -396,8 +400,12 @@ func cmdCheck(args []string) int {
 				assumptions["external "+n+": "+d] = true
 			}
 		}
+		curAbstracted = nil
 		for _, n := range rep.Notes {
 			assumptions["engine note: "+n] = true
+			if strings.HasPrefix(n, "ABSTRACTED: external function ") {
+				curAbstracted = append(curAbstracted, strings.TrimPrefix(n, "ABSTRACTED: external function "))
+			}
 		}
 		for _, k := range rep.UsedContr {
 			if cc := prog.contracts.byKey[k]; cc != nil && cc.Directives["assumed"] != nil {
